@@ -198,7 +198,7 @@ class IOMixin(OptimizationProblem, metaclass=ABCMeta):
             timeseries_id = self.min_timeseries_id(variable_name)
             try:
                 _, values = self.io.get_timeseries_sec(timeseries_id, 0)
-                m = values[t_pos:]
+                m = values[t_pos:].copy()
             except KeyError:
                 pass
             else:
@@ -208,7 +208,7 @@ class IOMixin(OptimizationProblem, metaclass=ABCMeta):
             timeseries_id = self.max_timeseries_id(variable_name)
             try:
                 _, values = self.io.get_timeseries_sec(timeseries_id, 0)
-                M = values[t_pos:]
+                M = values[t_pos:].copy()
             except KeyError:
                 pass
             else:
